@@ -16,6 +16,7 @@ import (
 	"fmt"
 	"go/ast"
 	"go/parser"
+	"go/printer"
 	"go/token"
 	"math/big"
 	"os"
@@ -823,6 +824,161 @@ func (p *pkg) configDefault(file, name, defName, leanName string) {
 	emit("    { defaultExpiration := cDefaultExpiration, cleanupInterval := cCleanupInterval, minCapacity := cMinCapacity, hasCallback := cfg.hasCallback }\n\n")
 }
 
+var cfgField = map[string]string{"DefaultExpiration": "defaultExpiration", "CleanupInterval": "cleanupInterval", "MinCapacity": "minCapacity"}
+
+// ctorPlumbing translates the constructor plumbing of one twin: the four option constructors, New / NewDefault, the
+// helper newXsyncMap*Default and what newXsyncMap* does with the normalised configuration (the value stored as the
+// default TTL, whether a callback is installed, the presize hint, and the condition under which the janitor
+// goroutine is started).  Everything is shape-checked; an unexpected shape is a translation failure.
+func (p *pkg) ctorPlumbing(sfx, optFile, cacheFile, xsFile, newFn, newDefaultFn, xsNew, xsNewDefault, cfgDefault, defCfg, presizeFn string) {
+	// --- options: func WithX(v T) Option { return func(config *Config) { config.F = v } }
+	for _, o := range []struct{ name, field string }{{"WithDefaultExpiration", "DefaultExpiration"}, {"WithCleanupInterval", "CleanupInterval"},
+		{"WithEvictedCallback", "EvictedCallback"}, {"WithMinCapacity", "MinCapacity"}} {
+		f := p.fn(optFile, o.name+sfx, "")
+		if len(f.Type.Params.List) != 1 || len(f.Type.Params.List[0].Names) != 1 || len(f.Body.List) != 1 {
+			die("%s: unexpected shape", o.name+sfx)
+		}
+		par := f.Type.Params.List[0].Names[0].Name
+		rs, ok := f.Body.List[0].(*ast.ReturnStmt)
+		if !ok || len(rs.Results) != 1 {
+			die("%s: must return a function literal", o.name+sfx)
+		}
+		fl, ok := rs.Results[0].(*ast.FuncLit)
+		if !ok || len(fl.Type.Params.List) != 1 || len(fl.Body.List) != 1 {
+			die("%s: must return func(config *Config) { config.F = v }", o.name+sfx)
+		}
+		cp := fl.Type.Params.List[0].Names[0].Name
+		as, ok := fl.Body.List[0].(*ast.AssignStmt)
+		if !ok || as.Tok != token.ASSIGN || exprString(as.Lhs[0]) != cp+"."+o.field || exprString(as.Rhs[0]) != par {
+			die("%s: the option must assign its argument to config.%s (found `%s = %s`)", o.name+sfx, o.field, exprString(as.Lhs[0]), exprString(as.Rhs[0]))
+		}
+		if o.field == "EvictedCallback" {
+			emit("/-- `%s(ec)`; the callback itself is carried beside the configuration (`hasCallback` = ec is not nil) -/\n", o.name+sfx)
+			emit("def %s (hasCb : Bool) (cfg : Config) : Config := { cfg with hasCallback := hasCb }\n\n", o.name+sfx)
+		} else {
+			emit("def %s (v : Int) (cfg : Config) : Config := { cfg with %s := v }\n\n", o.name+sfx, cfgField[o.field])
+		}
+	}
+	// --- New(opts...): cfg := DefaultConfig(); for _, opt := range opts { opt(&cfg) }; return newXsyncMap(cfg)
+	nf := p.fn(cacheFile, newFn, "")
+	want := []string{"cfg:=" + defCfg + "()", "", "return" + xsNew + "(cfg)"}
+	if len(nf.Body.List) != 3 {
+		die("%s: unexpected shape", newFn)
+	}
+	got0 := stmtString(nf.Body.List[0])
+	got2 := stmtString(nf.Body.List[2])
+	if !strings.HasPrefix(got0, "cfg:="+defCfg) || !strings.HasPrefix(strings.ReplaceAll(got2, " ", ""), "return"+xsNew) || !strings.HasSuffix(got2, "(cfg)") {
+		die("%s: expected `cfg := %s()` ... `return %s(cfg)`, found `%s` / `%s` (%v)", newFn, defCfg, xsNew, got0, got2, want)
+	}
+	rg, ok := nf.Body.List[1].(*ast.RangeStmt)
+	if !ok || exprString(rg.X) != "opts" || len(rg.Body.List) != 1 || stmtString(rg.Body.List[0]) != exprString(rg.Value)+"(&cfg)" {
+		die("%s: expected `for _, opt := range opts { opt(&cfg) }`", newFn)
+	}
+	emit("/-- `%s(opts...)`: the configuration handed to `%s` -/\ndef %s_cfg (opts : List (Config → Config)) : Config := opts.foldl (fun c o => o c) %s_\n\n", newFn, xsNew, newFn, defCfg)
+	// --- NewDefault(de, ci, ec...) = newXsyncMapDefault(de, ci, ec...)
+	nd := p.fn(cacheFile, newDefaultFn, "")
+	if len(nd.Body.List) != 1 || !strings.HasPrefix(strings.ReplaceAll(stmtString(nd.Body.List[0]), " ", ""), "return"+xsNewDefault) ||
+		!strings.HasSuffix(stmtString(nd.Body.List[0]), "(defaultExpiration,cleanupInterval,evictedCallback...)") {
+		die("%s: expected `return %s(defaultExpiration, cleanupInterval, evictedCallback...)`, found `%s`", newDefaultFn, xsNewDefault, stmtString(nd.Body.List[0]))
+	}
+	xd := p.fn(xsFile, xsNewDefault, "")
+	if len(xd.Body.List) != 3 {
+		die("%s: unexpected shape", xsNewDefault)
+	}
+	as, ok := xd.Body.List[0].(*ast.AssignStmt)
+	var lit *ast.CompositeLit
+	if ok && len(as.Rhs) == 1 {
+		lit, _ = as.Rhs[0].(*ast.CompositeLit)
+	}
+	if lit == nil || exprString(as.Lhs[0]) != "cfg" {
+		die("%s: first statement must be cfg := Config{...}", xsNewDefault)
+	}
+	fields := map[string]string{"DefaultExpiration": "0", "CleanupInterval": "0", "MinCapacity": "0"}
+	for _, el := range lit.Elts {
+		kv, ok := el.(*ast.KeyValueExpr)
+		if !ok {
+			die("%s: positional Config literal", xsNewDefault)
+		}
+		k := kv.Key.(*ast.Ident).Name
+		v := exprString(kv.Value)
+		if _, known := fields[k]; !known || (v != "defaultExpiration" && v != "cleanupInterval") {
+			die("%s: Config literal field %s: %s outside the translated shape", xsNewDefault, k, v)
+		}
+		fields[k] = map[string]string{"defaultExpiration": "de", "cleanupInterval": "ci"}[v]
+	}
+	ifs, ok := xd.Body.List[1].(*ast.IfStmt)
+	if !ok || exprString(ifs.Cond) != "len(evictedCallback)>0" || len(ifs.Body.List) != 1 || stmtString(ifs.Body.List[0]) != "cfg.EvictedCallback=evictedCallback[0]" {
+		die("%s: expected `if len(evictedCallback) > 0 { cfg.EvictedCallback = evictedCallback[0] }`", xsNewDefault)
+	}
+	if !strings.HasPrefix(strings.ReplaceAll(stmtString(xd.Body.List[2]), " ", ""), "return"+xsNew) || !strings.HasSuffix(stmtString(xd.Body.List[2]), "(cfg)") {
+		die("%s: must end in return %s(cfg)", xsNewDefault, xsNew)
+	}
+	emit("/-- `%s(de, ci, ec...)` = `%s`: the configuration handed to `%s` -/\n", newDefaultFn, xsNewDefault, xsNew)
+	emit("def %s_cfg (de ci : Int) (hasCb : Bool) : Config := { defaultExpiration := %s, cleanupInterval := %s, minCapacity := %s, hasCallback := hasCb }\n\n",
+		newDefaultFn, fields["DefaultExpiration"], fields["CleanupInterval"], fields["MinCapacity"])
+	// --- newXsyncMap(config...): what it does with cfg := configDefault(config...)
+	xn := p.fn(xsFile, xsNew, "")
+	if len(xn.Body.List) < 4 || !strings.HasPrefix(stmtString(xn.Body.List[0]), "cfg:="+cfgDefault+"(config...)") {
+		die("%s: first statement must be cfg := %s(config...)", xsNew, cfgDefault)
+	}
+	var stored = map[string]string{}
+	var presize, janitor string
+	nGo := 0
+	ast.Inspect(xn.Body, func(n ast.Node) bool {
+		switch x := n.(type) {
+		case *ast.CallExpr:
+			s := exprString(x)
+			if strings.HasPrefix(s, "c.defaultExpiration.Store(") && len(x.Args) == 1 {
+				stored["defaultExpiration"] = exprString(x.Args[0])
+			}
+			if strings.HasPrefix(s, "c.evictedCallback.Store(") && len(x.Args) == 1 {
+				stored["evictedCallback"] = exprString(x.Args[0])
+			}
+			if strings.HasPrefix(s, presizeFn) && len(x.Args) == 1 {
+				presize = exprString(x.Args[0])
+			}
+		case *ast.IfStmt:
+			for _, b := range x.Body.List {
+				if _, ok := b.(*ast.GoStmt); ok {
+					nGo++
+					t := &tr{fset: p.fset, env: map[string]ty{}, ren: map[string]string{}, consts: map[string]ty{
+						"NoExpiration": tInt, "DefaultExpiration": tInt, "DefaultCleanupInterval": tInt, "DefaultMinCapacity": tInt}}
+					for fld, ln := range cfgField {
+						t.env["cfg_"+fld] = tInt
+						t.ren["cfg_"+fld] = "cfg." + ln
+					}
+					janitor = t.expr(x.Cond, tBool)
+				}
+			}
+		case *ast.GoStmt:
+		}
+		return true
+	})
+	nGoAll := 0
+	ast.Inspect(xn.Body, func(n ast.Node) bool {
+		if _, ok := n.(*ast.GoStmt); ok {
+			nGoAll++
+		}
+		return true
+	})
+	if stored["defaultExpiration"] != "cfg.DefaultExpiration" || stored["evictedCallback"] != "cfg.EvictedCallback" || presize != "cfg.MinCapacity" {
+		die("%s: expected Store(cfg.DefaultExpiration), Store(cfg.EvictedCallback), %s(cfg.MinCapacity); found %v / %s", xsNew, presizeFn, stored, presize)
+	}
+	if nGo != 1 || nGoAll != 1 {
+		die("%s: expected exactly one go statement, guarded by one if (found %d guarded, %d in all)", xsNew, nGo, nGoAll)
+	}
+	emit("/-- `%s`: the janitor goroutine is started iff this holds of the normalised configuration -/\n", xsNew)
+	emit("def %s_janitor (cfg : Config) : Bool := %s\n\n", xsNew, janitor)
+	emit("/-- `%s`: the default TTL it installs, whether it installs a callback, the presize hint -/\n", xsNew)
+	emit("def %s_dflt (cfg : Config) : Int := cfg.defaultExpiration\ndef %s_hasCb (cfg : Config) : Bool := cfg.hasCallback\ndef %s_presize (cfg : Config) : Int := cfg.minCapacity\n\n", xsNew, xsNew, xsNew)
+}
+
+func stmtString(s ast.Stmt) string {
+	var b strings.Builder
+	printer.Fprint(&b, token.NewFileSet(), s)
+	return strings.Join(strings.Fields(strings.ReplaceAll(strings.ReplaceAll(b.String(), " := ", ":="), " = ", "=")), "")
+}
+
 // exprIn extracts the right-hand side of `lhs := ...` / `lhs = ...` inside function fn.
 func (p *pkg) assignedExpr(file, fn, recv, lhs string, nth int) ast.Expr {
 	f := p.fn(file, fn, recv)
@@ -919,7 +1075,7 @@ func main() {
 	}
 	repo := os.Args[1]
 	x := load(filepath.Join(repo, "internal/xsync"), "map.go", "mapof.go", "util.go")
-	c := load(repo, "item.go", "itemof.go", "config.go", "configof.go", "xsync_map.go", "xsync_mapof.go")
+	c := load(repo, "item.go", "itemof.go", "config.go", "configof.go", "xsync_map.go", "xsync_mapof.go", "options.go", "optionsof.go", "cache.go", "cacheof.go")
 
 	emit("-- GENERATED by /verif/tools/go2lean from the working tree of /repo. Do not edit.\n")
 	emit("import CacheVerif.GoPrelude\nset_option linter.unusedVariables false\nnamespace Gen\n\n")
@@ -1004,6 +1160,9 @@ func main() {
 	emit("structure Config where\n  defaultExpiration : Int\n  cleanupInterval : Int\n  minCapacity : Int\n  hasCallback : Bool\n  deriving Repr, DecidableEq\n\n")
 	c.configDefault("config.go", "configDefault", "DefaultConfig", "configDefault")
 	c.configDefault("configof.go", "configDefaultOf", "DefaultConfigOf", "configDefaultOf")
+	emit("-- constructor plumbing (options, New / NewDefault, what newXsyncMap* does with the configuration)\n")
+	c.ctorPlumbing("", "options.go", "cache.go", "xsync_map.go", "New", "NewDefault", "newXsyncMap", "newXsyncMapDefault", "configDefault", "DefaultConfig", "NewMapPresized")
+	c.ctorPlumbing("Of", "optionsof.go", "cacheof.go", "xsync_mapof.go", "NewOf", "NewOfDefault", "newXsyncMapOf", "newXsyncMapOfDefault", "configDefaultOf", "DefaultConfigOf", "NewMapOfPresized")
 
 	emit("end Gen\n")
 
